@@ -269,7 +269,9 @@ pub fn run_check(prop: &Prop, tier: Tier) -> i32 {
                 .env("RUST_LIB_BACKTRACE", "0")
                 .env("VERIF_SEED", (seed as i64).to_string())
                 .stdin(Stdio::null())
-                .stdout(Stdio::piped())
+                // guest console output (TRAPA #0 write) goes to the shard's stdout: nobody needs it, and a pipe that is
+                // only read after the shard has ended would block a shard that prints more than the pipe holds
+                .stdout(Stdio::null())
                 .stderr(Stdio::piped())
                 .spawn();
             match child {
